@@ -586,13 +586,17 @@ class ReaderConditional(ILookup[kw.Keyword, ReaderForm], ILispObject):
 EOF = object()
 
 
-def _with_loc(f: W) -> W:
+def _with_loc(f: W, start_col_offset: int = 0) -> W:
     """Wrap a reader function in a decorator to supply line and column
-    information along with relevant forms."""
+    information along with relevant forms.
+
+    Reader macro functions are called after their leading dispatch character
+    ("#") has been consumed; they supply a negative ``start_col_offset`` so
+    the span of the form they return starts at that character."""
 
     @functools.wraps(f)
     def with_lineno_and_col(ctx, **kwargs):
-        line, col = ctx.reader.line, ctx.reader.col
+        line, col = ctx.reader.line, ctx.reader.col + start_col_offset
         v = f(ctx, **kwargs)
         end_line, end_col = ctx.reader.line, ctx.reader.col
         if isinstance(v, IWithMeta):
@@ -612,6 +616,12 @@ def _with_loc(f: W) -> W:
             return v
 
     return cast(W, with_lineno_and_col)
+
+
+def _with_reader_macro_loc(f: W) -> W:
+    """Wrap a reader macro function to supply line and column information starting
+    from the "#" dispatch character preceding the current reader position."""
+    return _with_loc(f, start_col_offset=-1)
 
 
 def _consume_whitespace(ctx: ReaderContext) -> str:
@@ -711,7 +721,7 @@ def _read_vector(ctx: ReaderContext) -> vec.PersistentVector:
     return _read_coll(ctx, vec.vector, "]", "vector")
 
 
-@_with_loc
+@_with_reader_macro_loc
 def _read_set(ctx: ReaderContext) -> lset.PersistentSet:
     """Return a set from the input stream."""
     start = ctx.reader.advance()
@@ -818,6 +828,7 @@ def _read_map(ctx: ReaderContext, namespace: str | None = None) -> lmap.Persiste
         return lmap.map(d)
 
 
+@_with_reader_macro_loc
 def _read_namespaced_map(ctx: ReaderContext) -> lmap.PersistentMap:
     """Read a namespaced map from the input stream."""
     start = ctx.reader.peek()
@@ -1260,7 +1271,7 @@ def _postwalk(f, form):
     return _walk(form, inner_f, f)
 
 
-@_with_loc
+@_with_reader_macro_loc
 def _read_function(ctx: ReaderContext) -> llist.PersistentList:
     """Read a function reader macro from the input stream."""
     if ctx.is_in_anon_fn:
